@@ -751,7 +751,7 @@ var extTaintValues = []string{"", "0", "-5", "abc", "99999999999999999999", "922
 func (g *GroupWorld) operatorAction(s *Stream, prefer string) {
 	w := g.w
 	p := w.prof
-	act := s.Pick(int(p.PCordon*100), int(p.PCordon*60), int(p.PAnnotate*100), int(p.PAnnotate*50), int(p.PForceTaint*60), int(p.PExtTaint*80), int(p.PForeignTaint*100), 10, 8, int(p.PAsgEdit*100), 8, 6, 5, int(p.PResize*100), int(p.PForceTaint*25))
+	act := s.Pick(int(p.PCordon*100), int(p.PCordon*60), int(p.PAnnotate*100), int(p.PAnnotate*50), int(p.PForceTaint*60), int(p.PExtTaint*80), int(p.PForeignTaint*100), 10, int(p.PNodeLoss*100), int(p.PAsgEdit*100), int(p.PNodeLoss*100), 6, 5, int(p.PResize*100), int(p.PForceTaint*25))
 	names := []string{"cordon", "uncordon", "annotate", "unannotate", "force-taint", "ext-taint", "foreign-taint", "remove-taint", "spot-loss", "asg-edit", "node-delete", "relabel", "ext-untaint", "resize", "force-taint-many"}
 	gate := map[string]string{"cordon": "cordon", "uncordon": "cordon", "annotate": "annotate", "unannotate": "annotate", "force-taint": "force-taint", "ext-taint": "ext-taint",
 		"foreign-taint": "foreign-taint", "remove-taint": "foreign-taint", "spot-loss": "spot", "asg-edit": "asg-edit", "node-delete": "node-delete", "relabel": "relabel", "ext-untaint": "ext-taint", "resize": "operator", "force-taint-many": "force-taint"}
